@@ -84,6 +84,7 @@ type snap struct {
 	phw     uint64
 	ret     channelstore.RetentionState
 	present []uint64
+	stored  map[uint64]readMsg // durable rows by sequence
 	view    int
 	viewMin int
 	viewRet uint64
@@ -109,7 +110,8 @@ type engine struct {
 	leaderChg  bool
 	readers    map[ch.NodeID]*infracluster.ChannelMessageReader
 	mgmt       map[ch.NodeID]mgmtNode
-	deferred   *pendingViolation
+	deferred     *pendingViolation // client-path read violation with a known root cause
+	deferredMgmt *pendingViolation // management-path read violation
 }
 
 // mgmtNode is the management read surface (pkg/cluster.Node in production).
@@ -192,8 +194,14 @@ func (e *engine) run() {
 		StepTime: func() time.Duration { return time.Millisecond + skew },
 	}
 	sched.Run()
+	// deferred read violations: client path first, management path last, so
+	// that neither surface masks the other (nor anything else) inside a run
 	if !r.Failed() && e.deferred != nil {
 		d := e.deferred
+		r.FailSig(d.class, d.sig, d.detail, d.facts)
+	}
+	if !r.Failed() && e.deferredMgmt != nil {
+		d := e.deferredMgmt
 		r.FailSig(d.class, d.sig, d.detail, d.facts)
 	}
 	total := 0
@@ -278,6 +286,14 @@ func (e *engine) observe() {
 			}
 			for _, m := range res.Messages {
 				s.present = append(s.present, m.MessageSeq)
+				if s.stored == nil {
+					s.stored = map[uint64]readMsg{}
+				}
+				s.stored[m.MessageSeq] = readMsg{seq: m.MessageSeq, id: m.MessageID, syncOnce: m.SyncOnce}
+				if e.barrierIDs[m.MessageID] && !m.SyncOnce {
+					// the durable copy on this node no longer carries the marker
+					r.Probe("store.barrier_marker_lost")
+				}
 			}
 		}
 		_ = st.Close()
